@@ -12,6 +12,7 @@ import XmppModel.Model.IbbTable
     C15 recv <maxbuf> <ops>    ops `,`-joined:  d:<known>:<seq>:<payloadhex>[:M<before>.<after>]  data packet
                                                   (optional 5th field: the other children of its carrier <message/>)
                                                 c   the stream is closed (by either side)
+                                                x   a <close/> that names the sid but does not come from the stream's peer
                                                 h   local Close has sent its <close/> and waits for the answer
                                                 r:<n>   Read with a buffer of n bytes
        answer: one observation per op, `,`-joined: ack|inf|unx|bad|res  /  c  /  D<hex>|EOF|BLOCK
@@ -72,6 +73,7 @@ def applyOp (s : RState) (op : String) : Option (RState × String) :=
     let r := recvBody std s ⟨k, a, b⟩
     pure (r.1, showReply r.2)
   | ["c"] => some (close s, "c")
+  | ["x"] => some (s, showReply (closeRequest s false).2)  -- a <close/> from somebody who is not the stream's peer
   | ["h"] => some (closeBegin (IbbClose.receivesWhileWaiting IbbClose.closeProgram) s, "h")
   | ["b", n, bs] => do
     -- SetReadBuffer(n) on a connection with block size bs
